@@ -36,7 +36,9 @@ for p in props:
         'replay_cmd_template': './check --replay {path}',
         'engine': 'pyvc',
         'level_claimed': {'category': 'proof', 'text': m['level_text'], 'design_ref': m.get('design_ref', f'DESIGN.md section 5 {pid}')},
-        'level_note': m['level_note'],
+        'level_note': m['level_note'] + (' Bounded on top of the units (never counted as proved): the stand-ins named in the evidence file, among them the generic '
+                                         'purity stand-in (caller\'s objects unchanged, second identical call equal, call on rebuilt inputs equal) over this property\'s API calls.'
+                                         if pid not in ('C01', 'C15', 'C16') else ''),
         'technique': m.get('technique', 'contract-based deductive verification: VCs generated from the real AST, discharged by z3/cvc5; native replay of counter-models; bounded stand-ins labelled'),
     })
 man = {
@@ -49,7 +51,7 @@ man = {
     'engines': [{'name': 'pyvc', 'path': 'verif/engine', 'serves_properties': served,
                  'kind_free_text': 'AST->VC symbolic executor over the real GEMDAT sources with sidecar contracts; z3 5.1 (API) with cvc5 1.0.3 / z3 4.8.12 CLI fallback; finite-scope grounding + native replay for counter-models; bounded stand-ins (concrete contract evaluation on the real function) labelled as such and never counted as proved'}],
     'checks': checks,
-    'notes': 'See DESIGN.md.  Exit codes: 0 held, 1 VIOLATION, 2 undecided (never reported as violation), 3 checker error.',
+    'notes': 'See DESIGN.md (section 10 = as built: status, fixes, known findings, what catches what).  Exit codes: 0 held, 1 VIOLATION, 2 undecided (never reported as violation), 3 checker error.  Known findings: known_findings.json.  Seeded property-breaking changes used to test the checks: seeded/.',
     'not_applicable': na,
 }
 json.dump(man, open(os.path.join(ROOT, 'MANIFEST.json'), 'w'), indent=1)
